@@ -119,6 +119,16 @@ Theorem C10_lf_safe_decidable : forall s, lf_safeb s = true <-> lf_safe s.
 Proof. exact lf_safeb_spec. Qed.
 Print Assumptions C10_lf_safe_decidable.
 
+(* D6 is the only way a clean stream can fail: on a faultless delivery outside
+   the D4 class an error arises only in the UTF-16LE arm, and it is
+   UnexpectedEof *)
+Theorem C10_clean_stream_error_only_le : forall b s k,
+  faultless s -> good_start (length b) s = true ->
+  read_all_lines (mk_reader b s) = IoErr k ->
+  fst (from_bom b) = Utf16LE /\ k = UnexpectedEof.
+Proof. exact clean_stream_error_only_le. Qed.
+Print Assumptions C10_clean_stream_error_only_le.
+
 (* ---------- non-vacuity ---------- *)
 
 (* "Title:<U+6F22><U+1F600> \r\nx" : CJK, astral, trailing blanks, CRLF, last line without LF *)
